@@ -485,8 +485,11 @@ func (r *botRun) options() []botOpt {
 		})
 	}
 	add('c', func() {
-		lines := []string{"Shout <Opp> hello there", "Tell <Opp> good luck", "ShoutRoom lobby <Opp> hi all", "Game#99999 P A1", "Online 17", r.gs() + " Noise", "Message hi"}
-		r.deliver(lines[(r.used['c']-1+len(r.srv))%len(lines)], "")
+		lines := []string{"Shout <Opp> hello there", "Tell <Opp> good luck", "ShoutRoom lobby <Opp> hi all", "Game#99999 P A1", "Online 17", r.gs() + " Noise", "Message hi",
+			// chat rooms are named by users: a room spelled like a game verb is still chat
+			"ShoutRoom Undo <Opp> oops", "ShoutRoom Over <Opp> gg", "ShoutRoom Abandoned. <Opp> bye", "ShoutRoom RequestUndo <Opp> pls",
+			"ShoutRoom P <Opp> A1", "ShoutRoom M <Opp> A1 B1 1", "ShoutRoom Time <Opp> 1 2"}
+		r.deliver(lines[(r.used['c']-1+len(r.srv)+r.times)%len(lines)], "")
 	})
 	add('o', func() { r.deliver(r.gs()+" Over R-0", "") })
 	add('n', func() { r.deliver(r.gs()+" Abandoned. Opp quit", "") })
